@@ -6,7 +6,7 @@ from . import expr as X
 from .interp import AbsRaise, ExcVal, ExtRef, FB, ModelMethod, mkbool
 from .models import DType, PyCallable, _where, as_operand, bool_of_el, num_of_el, parse_dtype
 from .repo import AnalysisError
-from .vec import MASKED, NONE_EL, El, Masked, Sc, Vec, Vec2
+from .vec import MASKED, NONE_EL, El, Masked, Sc, Vec, Vec2, m_conc
 
 
 class TS:
@@ -113,7 +113,7 @@ def register(M, h):
         tz = None
         if isinstance(src, Vec):
             if src.dtype == 'M8':
-                return [El(e.d, False) if not e.m else El(X.NAN, False) for e in src.els()], src.tz
+                return [El(e.d, False) if not m_conc(e.m, node, 'datetime conversion') else El(X.NAN, False) for e in src.els()], src.tz
             if src.dtype in ('f8', 'i8') and unit is not None:
                 k = {'s': Fr(1), 'ms': Fr(1, 1000), 'ns': Fr(1, 10**9), 'm': Fr(60), 'h': Fr(3600), 'D': Fr(86400), 'us': Fr(1, 10**6)}.get(unit)
                 if k is None:
@@ -213,7 +213,7 @@ def register(M, h):
         if idx is not None and len(idx) != len(v):
             raise AbsRaise(ExcVal('ValueError', (f'Length of values ({len(v)}) does not match length of index ({len(idx)})',)), node)
         # a masked array becomes NaN where masked (pandas honours the mask)
-        els = [El(X.NAN, False) if e.m else El(e.d, False) for e in v.els()]
+        els = [El(X.NAN, False) if m_conc(e.m, node, 'pd.Series of a masked array') else El(e.d, False) for e in v.els()]
         out = Vec.fresh(els, kind='series', dtype=v.dtype, unit=v.unit, index=idx)
         if dtype is not None:
             out = astype(interp, out, dtype, node)
